@@ -4,6 +4,10 @@
 //@subst domain::Target => Target
 //@subst yaml::Project => Project
 //@subst yaml::Target => YamlTarget
+//@subst yaml::InputResources => InputResources
+//@subst yaml::OutputResources => OutputResources
+//@subst yaml::InputResource => InputResource
+//@subst yaml::OutputResource => OutputResource
 //@subst yaml::Config => YamlConfig
 //@subst Config::load_project => load_project
 //@include header.rs
@@ -23,15 +27,18 @@
 //@item src/domain.rs CmdResource dropderive=PartialEq
 //@item src/domain.rs Resources dropderive=PartialEq
 //@item src/config/yaml/schema.rs Project pubfields tsubst=Target:YamlTarget
+//@item src/config/yaml/schema.rs Target as=YamlTarget dropderive=Default
+//@item src/config/yaml/schema.rs Dependencies dropderive=Default
+//@item src/config/yaml/schema.rs InputResources dropderive=Default
+//@item src/config/yaml/schema.rs OutputResources dropderive=Default
+//@item src/config/yaml/schema.rs InputResource
+//@item src/config/yaml/schema.rs OutputResource
 //@item src/config/ir.rs Config pubfields
 //@item src/config/yaml/mod.rs Config as=YamlConfig pubfields
 
 #[verifier::external_body]
 #[verifier::reject_recursive_types(T)]
 pub struct BTreeSet<T> { _p: std::marker::PhantomData<T> }
-/// yaml::Target (the parsed, untransformed target): opaque; `transform_target` turns it into a domain target
-#[verifier::external_body]
-pub struct YamlTarget { _p: () }
 
 pub broadcast axiom fn axiom_tid_key_model()
     ensures #[trigger] obeys_key_model::<TargetId>();
@@ -313,46 +320,220 @@ impl Config {
 // ---------------------------------------------------------------------------
 // add_target: depth-first resolution of the dependency closure
 // ---------------------------------------------------------------------------
-/// dependency ids written under `dependencies:` of a yaml target, parsed in the project `current` (A-yaml / C19)
-pub uninterp spec fn yaml_deps(t: YamlTarget, current: Option<String>) -> Seq<TargetId>;
-/// producer ids of the `X.output` inputs of a yaml target, parsed in the project `current`
-pub uninterp spec fn yaml_output_refs(t: YamlTarget, current: Option<String>) -> Seq<TargetId>;
+// ---------------------------------------------------------------------------
+// transform_target / transform_input / transform_output: from a parsed yaml target to a domain target
+// ---------------------------------------------------------------------------
+/// `TargetId::try_parse(text, current)` as a function (its body — `split("::")` and slice patterns — is
+/// only exercised by the bounded Kani harness `try_parse_spec`, C19.parse): None = rejected
+pub uninterp spec fn parse_ref(text: Seq<char>, current: Option<String>) -> Option<TargetId>;
+/// group 1 of `^((\w[-\w]*::)?\w[-\w]*)\.output$` on an input entry, None when it does not match (regex crate: A-yaml)
+pub uninterp spec fn output_ref_text(entry: Seq<char>) -> Option<Seq<char>>;
+/// what the regex accepts has at most one `::`, so `try_parse` accepts it (A-yaml; this is why the code may unwrap)
+pub broadcast axiom fn axiom_output_ref_parses(entry: Seq<char>, current: Option<String>)
+    requires output_ref_text(entry) is Some,
+    ensures #[trigger] parse_ref(output_ref_text(entry)->Some_0, current) is Some;
+/// `project_dir.join(path)` (A-fs)
+pub uninterp spec fn path_join(dir: PathBuf, rel: String) -> PathBuf;
+/// `transform_extensions` as a function (body: bounded Kani harness `transform_extensions_spec`, C15.ext-normalise)
+pub uninterp spec fn ext_norm(e: Option<Vec<String>>) -> FileExtensions;
 
-/// `transform_target` (ir.rs; iterator adapters and regexes — assumed): builds the domain target of the
-/// given id in the given directory; its dependencies are the parsed `dependencies:`; it also returns the
-/// producers named by `X.output` inputs; aggregates have no inputs.  Real signatures, bodies not verified.
-//@fn src/config/ir.rs transform_target assumed ret=r
-//@contract
-    ensures r matches Ok((t, dfi)) ==> {
-        &&& t.meta().id == *target_id && t.meta().project_dir == project_dir
-        &&& t.meta().dependencies@ == yaml_deps(yaml_target, target_id.project_name)
-        &&& dfi@ == yaml_output_refs(yaml_target, target_id.project_name)
-        &&& (t is Aggregate ==> dfi@.len() == 0)
-    },
-//@end
-#[verifier::external_body]
-pub struct InputResources { _p: () }
-#[verifier::external_body]
-pub struct OutputResources { _p: () }
+pub open spec fn parse_many(names: Seq<String>, current: Option<String>) -> Option<Seq<TargetId>>
+    decreases names.len()
+{
+    if names.len() == 0 { Some(Seq::empty()) } else {
+        match (parse_many(names.drop_last(), current), parse_ref(names.last()@, current)) {
+            (Some(p), Some(id)) => Some(p.push(id)),
+            _ => None,
+        }
+    }
+}
+pub open spec fn deps_of(t: YamlTarget) -> Seq<String> {
+    match t {
+        YamlTarget::Build { dependencies, .. } => dependencies.0@,
+        YamlTarget::Service { dependencies, .. } => dependencies.0@,
+        YamlTarget::Aggregate { dependencies } => dependencies.0@,
+    }
+}
+pub open spec fn inputs_of(t: YamlTarget) -> Seq<InputResource> {
+    match t {
+        YamlTarget::Build { input, .. } => input.0@,
+        YamlTarget::Service { input, .. } => input.0@,
+        YamlTarget::Aggregate { .. } => Seq::empty(),
+    }
+}
+/// [C19.ref-default] one step of collecting the `X.output` producers: a reference is parsed in the project
+/// of the target that makes it (`current`) — so a bare name means a target of that same project
+pub open spec fn dfi_step(dfi: Seq<TargetId>, resource: InputResource, current: Option<String>) -> Option<Seq<TargetId>> {
+    match resource {
+        InputResource::DependencyOutput(id) => match output_ref_text(id@) {
+            Some(t) => match parse_ref(t, current) { Some(d) => Some(dfi.push(d)), None => None },
+            None => None,
+        },
+        _ => Some(dfi),
+    }
+}
+pub open spec fn dfi_fold(rs: Seq<InputResource>, current: Option<String>) -> Option<Seq<TargetId>>
+    decreases rs.len()
+{
+    if rs.len() == 0 { Some(Seq::empty()) } else {
+        match dfi_fold(rs.drop_last(), current) { Some(d) => dfi_step(d, rs.last(), current), None => None }
+    }
+}
+/// dependency ids written under `dependencies:` of a yaml target, parsed in the project `current`
+pub open spec fn yaml_deps(t: YamlTarget, current: Option<String>) -> Seq<TargetId> {
+    match parse_many(deps_of(t), current) { Some(s) => s, None => Seq::empty() }
+}
+/// producer ids of the `X.output` inputs of a yaml target, parsed in the project `current`
+pub open spec fn yaml_output_refs(t: YamlTarget, current: Option<String>) -> Seq<TargetId> {
+    match dfi_fold(inputs_of(t), current) { Some(s) => s, None => Seq::empty() }
+}
+
 #[verifier::external_body]
 pub struct Path { _p: () }
-//@fn src/config/ir.rs transform_input assumed ret=r
-//@lsubst yaml::InputResources => InputResources
+impl Path {
+    pub uninterp spec fn buf(&self) -> PathBuf;
+    #[verifier::external_body]
+    pub fn to_owned(&self) -> (r: PathBuf) ensures r == self.buf() { unimplemented!() }
+}
+impl std::ops::Deref for PathBuf {
+    type Target = Path;
+    #[verifier::external_body]
+    fn deref(&self) -> (r: &Path) ensures r.buf() == *self { unimplemented!() }
+}
+/// the regex of `X.output` entries (R19)
+pub struct RegexStub { }
+#[verifier::external_body]
+pub struct Captures { _p: () }
+#[verifier::external_body]
+pub struct ReMatch { _p: () }
+pub const RE: RegexStub = RegexStub { };
+impl RegexStub {
+    #[verifier::external_body]
+    pub fn captures(&self, s: &String) -> (r: Option<Captures>)
+        ensures r is Some <==> output_ref_text(s@) is Some, r matches Some(c) ==> c.group1() == output_ref_text(s@)->Some_0,
+    { unimplemented!() }
+}
+impl Captures {
+    pub uninterp spec fn group1(&self) -> Seq<char>;
+    #[verifier::external_body]
+    pub fn get(&self, i: usize) -> (r: Option<ReMatch>)
+        ensures i == 1 ==> r is Some && r->Some_0.text() == self.group1(),
+    { unimplemented!() }
+}
+impl ReMatch {
+    pub uninterp spec fn text(&self) -> Seq<char>;
+    #[verifier::external_body]
+    pub fn as_str(&self) -> (r: &str) ensures r@ == self.text() { unimplemented!() }
+}
+
+impl TargetId {
+/// `TargetId::try_parse` / `try_parse_many`: real signatures; bodies are string code (bounded Kani harness)
+//@fn src/domain.rs TargetId::try_parse assumed ret=r
+//@lsubst Self => TargetId
 //@contract
-    ensures true,
+    ensures r matches Ok(id) ==> parse_ref(target_name@, *current_project) == Some(id),
+        r is Err ==> parse_ref(target_name@, *current_project) is None,
 //@end
-//@fn src/config/ir.rs transform_output assumed ret=r
-//@lsubst yaml::OutputResources => OutputResources
+//@fn src/domain.rs TargetId::try_parse_many assumed ret=r
+//@lsubst Self => TargetId
 //@contract
-    ensures true,
+    ensures r matches Ok(v) ==> parse_many(target_names@, *current_project) == Some(v@),
+        r is Err ==> parse_many(target_names@, *current_project) is None,
 //@end
+}
+
+//@fn src/config/ir.rs get_dependencies ret=r
+//@contract
+    ensures r@ == deps_of(*target),
+//@end
+
+/// `transform_extensions` (body: iterator adapters; bounded Kani harness)
 //@fn src/config/ir.rs transform_extensions assumed ret=r
 //@contract
-    ensures true,
+    ensures r == ext_norm(extensions),
 //@end
-//@fn src/config/ir.rs get_dependencies assumed ret=r
+
+/// `paths.iter().map(|path| project_dir.join(path)).collect()` for the closure `join_one` (A-all)
+#[verifier::external_body]
+pub fn join_paths(project_dir: &Path, paths: &Vec<String>) -> (r: Vec<PathBuf>)
+    ensures r@.len() == paths@.len(), forall|i: int| #![trigger r@[i]] 0 <= i < r@.len() ==> r@[i] == path_join(project_dir.buf(), paths@[i]),
+{ unimplemented!() }
+/// `input.0.into_iter().try_fold((Resources::new(), Vec::new()), closure)` for the closure `input_step` (A-all:
+/// folds the closure over the entries in order and stops at the first Err)
+#[verifier::external_body]
+pub fn try_fold_inputs(input: InputResources, target_id: &TargetId, project_dir: &Path) -> (r: Result<(Resources, Vec<TargetId>)>)
+    ensures r matches Ok(x) ==> dfi_fold(input.0@, target_id.project_name) == Some(x.1@),
+        r is Err ==> dfi_fold(input.0@, target_id.project_name) is None,
+{ unimplemented!() }
+/// `output.0.into_iter().fold(Resources::new(), closure)` for the closure `output_step` (A-all)
+#[verifier::external_body]
+pub fn fold_outputs(output: OutputResources, project_dir: &Path) -> (r: Resources)
+{ unimplemented!() }
+
+//@fn src/config/ir.rs transform_input#closure1 as=join_one params=`project_dir: &Path, path: &String` rty=`PathBuf` ret=r
+//@contract
+    ensures /*[C13.paths-bound]*/ r == path_join(project_dir.buf(), *path),
+//@end
+impl Path {
+    #[verifier::external_body]
+    pub fn join(&self, p: &String) -> (r: PathBuf) ensures r == path_join(self.buf(), *p) { unimplemented!() }
+}
+
+//@fn src/config/ir.rs transform_input#closure0 as=input_step params=`acc: (Resources, Vec<TargetId>), resource: InputResource, target_id: &TargetId, project_dir: &Path` rty=`Result<(Resources, Vec<TargetId>)>` ret=r
+//@closure 1 skeleton=`paths.iter().map(<CLOSURE>).collect()` becomes=`join_paths(project_dir, &paths)`
+//@contract
+    ensures
+        /*[C19.ref-default,C09.ref-parse]*/ r matches Ok(x) ==> dfi_step(acc.1@, resource, target_id.project_name) == Some(x.1@),
+        /*[C09.ref-parse]*/ r is Err ==> dfi_step(acc.1@, resource, target_id.project_name) is None,
+        /*[C13.cmd-dir-bound]*/ r is Ok && resource is CmdStdout ==> r->Ok_0.0.files@ == acc.0.files@ && r->Ok_0.0.cmds@.len() == acc.0.cmds@.len() + 1
+            && r->Ok_0.0.cmds@.last().dir == project_dir.buf() && r->Ok_0.0.cmds@.last().cmd == resource->cmd_stdout,
+        /*[C13.paths-bound]*/ r is Ok && resource is Files ==> r->Ok_0.0.cmds@ == acc.0.cmds@ && r->Ok_0.0.files@.len() == acc.0.files@.len() + 1
+            && r->Ok_0.0.files@.last().extensions == ext_norm(resource->Files_extensions)
+            && r->Ok_0.0.files@.last().paths@.len() == resource->Files_paths@.len()
+            && forall|i: int| #![trigger r->Ok_0.0.files@.last().paths@[i]] 0 <= i < resource->Files_paths@.len() ==> r->Ok_0.0.files@.last().paths@[i] == path_join(project_dir.buf(), resource->Files_paths@[i]),
+        r is Ok && resource is DependencyOutput ==> r->Ok_0.0.files@ == acc.0.files@ && r->Ok_0.0.cmds@ == acc.0.cmds@,
+//@pre
+        broadcast use axiom_output_ref_parses;
+        let (mut input, mut dependencies_from_input) = acc;
+//@end
+
+//@fn src/config/ir.rs transform_input ret=r
+//@closure 0 skeleton=`input.0.into_iter().try_fold( (domain::Resources::new(), Vec::new()), <CLOSURE>, )` becomes=`try_fold_inputs(input, target_id, project_dir)`
+//@contract
+    ensures r matches Ok(x) ==> dfi_fold(input.0@, target_id.project_name) == Some(x.1@),
+        r is Err ==> dfi_fold(input.0@, target_id.project_name) is None,
+//@end
+
+//@fn src/config/ir.rs transform_output#closure0 as=output_step params=`acc0: Resources, resource: OutputResource, project_dir: &Path` rty=`Resources` ret=r
+//@closure 1 skeleton=`paths.iter().map(<CLOSURE>).collect()` becomes=`join_paths(project_dir, &paths)`
+//@contract
+    ensures
+        /*[C13.cmd-dir-bound]*/ resource is CmdStdout ==> r.files@ == acc0.files@ && r.cmds@.len() == acc0.cmds@.len() + 1
+            && r.cmds@.last().dir == project_dir.buf() && r.cmds@.last().cmd == resource->cmd_stdout,
+        /*[C13.paths-bound]*/ resource is Files ==> r.cmds@ == acc0.cmds@ && r.files@.len() == acc0.files@.len() + 1
+            && r.files@.last().extensions == ext_norm(resource->Files_extensions)
+            && r.files@.last().paths@.len() == resource->Files_paths@.len()
+            && forall|i: int| #![trigger r.files@.last().paths@[i]] 0 <= i < resource->Files_paths@.len() ==> r.files@.last().paths@[i] == path_join(project_dir.buf(), resource->Files_paths@[i]),
+//@pre
+        let mut acc = acc0;
+//@end
+
+//@fn src/config/ir.rs transform_output ret=r
+//@closure 0 skeleton=`output .0 .into_iter() .fold(domain::Resources::new(), <CLOSURE>)` becomes=`fold_outputs(output, project_dir)`
 //@contract
     ensures true,
+//@end
+
+/// `transform_target`: builds the domain target of the given id in the given directory; its dependencies
+/// are the parsed `dependencies:` (parsed in the target's own project); it also returns the producers named
+/// by `X.output` inputs; aggregates have no inputs
+//@fn src/config/ir.rs transform_target ret=r
+//@contract
+    ensures
+        /*[C09.keyed]*/ r matches Ok((t, dfi)) ==> t.meta().id == *target_id && t.meta().project_dir == project_dir,
+        /*[C19.ref-default,C09.ref-parse]*/ r matches Ok((t, dfi)) ==> t.meta().dependencies@ == yaml_deps(yaml_target, target_id.project_name),
+        /*[C19.ref-default,C09.ref-parse]*/ r matches Ok((t, dfi)) ==> dfi@ == yaml_output_refs(yaml_target, target_id.project_name),
+        r matches Ok((t, dfi)) ==> (t is Aggregate ==> dfi@.len() == 0),
 //@end
 
 pub assume_specification<T> [<[T]>::contains] (s: &[T], x: &T) -> (r: bool)
